@@ -24,7 +24,12 @@ def ret_paths(ctx, b, include_panic=False):
 def sizeof_T_sites(ctx):
     out = []
     for key, b in list(ctx.facts.bodies.items()) + list(ctx.facts.consts.items()):
+        if key == '_' or key.endswith('::_'):
+            continue  # `const _: () = assert!(size_of::<Sender<()>>() == ..)`: a compile-time layout assertion, evaluated by rustc
+        live = b.live_blocks()
         for bb, t in b.all_calls():
+            if bb not in live:
+                continue  # e.g. inside a debug_assert!: compiled out of the analysed (release) semantics
             fn = t.get('fn')
             if fn and canon(fn['path']) == 'std::mem::size_of':
                 out.append((key, bb, fn['args'], t.get('at')))
@@ -42,7 +47,10 @@ def p1(ctx):
             ctx.violate(key, None, 'size_of::<%s>() used in the encoding decision (only T and *mut T are recognised)' % ','.join(args), at=at, sig='sizeof-arg:' + ','.join(args))
     # align_of / size_of_val / literal sizes in predicates
     for key, b in ctx.facts.bodies.items():
+        live_ = b.live_blocks()
         for bb, t in b.all_calls():
+            if bb not in live_:
+                continue  # a debug_assert!(.. align_of ..) is compiled out
             fn = t.get('fn')
             if fn and canon(fn['path']) in ('std::mem::align_of', 'std::mem::size_of_val', 'std::mem::align_of_val'):
                 ctx.violate(key, None, '%s used (the encoding is decided by size only, consistently everywhere)' % canon(fn['path']), at=t.get('at'), sig='alignof')
@@ -99,6 +107,10 @@ def touches(p, evs):
                 x = a[-1]
                 if x[0] in ('ref', 'rawptr') and x[1][0] == 'local':
                     t.add('OWN_SLOT_TAKE')  # the by-reference spelling of `slot.assume_init()` on the receiver's own slot
+                elif x[0] in ('ref', 'rawptr') and x[1][0] == 'pfield' and x[1][2] == 'data':
+                    # `self.data.assume_init_read()`: std defines it as `self.as_ptr().read()` - the future's own slot, read bitwise
+                    t.add('OWN_SLOT')
+                    t.add('PTR_READ')
             if n in ('std::mem::MaybeUninit::as_ptr', 'std::mem::MaybeUninit::as_mut_ptr') and a:
                 x = a[0]
                 if cell_get(x) or (x[0] in ('ref', 'rawptr') and x[1][0] == 'deref' and cell_get(x[1][1])):
@@ -506,7 +518,11 @@ def p5(ctx):
             for c in [e for e in p.events if e.kind == 'call' and e.name == 'pointer::store_as_kanal_ptr']:
                 ctx.oblige(1)
                 a = c.args[0]
-                if not (a[0] in ('ref', 'rawptr') and a[1] == ('local', 2)):
+                # `&*ManuallyDrop::new(d)`: the same value, wrapped so that it is not dropped here
+                md = a[0] == 'call' and a[2] in ('std::ops::Deref::deref', 'std::ops::DerefMut::deref_mut') and a[3] and a[3][0][0] in ('ref', 'rawptr') \
+                    and len(a[3][0]) > 2 and a[3][0][2] is not None and a[3][0][2][0] == 'call' and a[3][0][2][2] == 'std::mem::ManuallyDrop::new' \
+                    and a[3][0][2][3] == (('param', 2),)
+                if not md and not (a[0] in ('ref', 'rawptr') and a[1] == ('local', 2)):
                     ctx.violate(b.key, p, 'KanalPtr::write encodes something other than its argument', at=c.at)
             for w in [e for e in p.events if e.kind == 'wr' and e.place[0] == 'deref' and cell_get(e.place[1])]:
                 if not (w.val[0] == 'call' and w.val[2] == 'pointer::store_as_kanal_ptr'):
